@@ -34,7 +34,7 @@ RET_SINKS = [
 IGNORED_SOURCE_FNS = ("update_files_by_uri_sorted",)
 
 EXCEPTIONS = {
-    "ret:module_analyze<-module_analyze": "main_vec receives only WorkspaceId::MAIN (std removed before, library/remote ids go to "
+    "ret:module_analyze<-module_analyze.main_vec": "main_vec receives only WorkspaceId::MAIN (std removed before, library/remote ids go to "
                                           "the sorted `contexts`), so it has at most one element: hash order cannot permute it",
 }
 
@@ -77,7 +77,7 @@ def run(chk, F, tier):
         hs = sorted(l for l in ls if l[0] == "HASH")
         key = "ret:%s" % fid.split("::")[-1]
         # group by source function for exact exception keys
-        srcs = sorted({h[1].split("::")[-1] for h in hs})
+        srcs = sorted({h[1].split("::")[-1] + ("." + h[4] if len(h) > 4 else "") for h in hs})
         pending = []
         for s in srcs:
             k2 = "%s<-%s" % (key, s)
